@@ -741,7 +741,9 @@ def _collect_frames(lexicon: _AnyLexicon) -> list[lmf.SyntacticBehaviour]:
         frame['subcategorizationFrame']: {
             'id': frame['id'],
             'subcategorizationFrame': frame['subcategorizationFrame'],
-            'senses': frame.get('senses', []),
+            # copy the list: senses with a subcat are appended below and
+            # the caller's resource must not be modified
+            'senses': list(frame.get('senses', [])),
         }
         for frame in lexicon.get('frames', [])
     }
